@@ -42,6 +42,13 @@ def gen_tables(rng, pf=None):
         for _ in range(rng.randint(1, 6)):
             X[rng.randrange(n)][rng.randrange(nx)] = NAN
         faults.append("x_nan_cells")
+    if rng.random() < 0.3 and nx > 1:
+        # one feature column is published only from some later date on (leading missing values)
+        j = rng.randrange(nx)
+        m = rng.randint(n // 4, (3 * n) // 4)
+        for r in range(m):
+            X[r][j] = NAN
+        faults.append("x_col_starts_late")
     if rng.random() < 0.3:
         k = rng.randint(1, 10)
         xi = xi[k:]
